@@ -172,6 +172,19 @@ func rulesCanonical(c *Ctx, r *Report) {
 		w1, _ = phi.Edges[0].(*ssa.Slice)
 		w2, _ = phi.Edges[1].(*ssa.Slice)
 	}
+	// the choice made by a helper of two slice parameters: lesser(a, b)
+	var chooser *ssa.Function
+	var chooserCall *ssa.Call
+	if cl, isCall := arg.(*ssa.Call); isCall && w1 == nil {
+		if g := cl.Call.StaticCallee(); g != nil && g.Blocks != nil && c.inModule(g) && len(g.Params) == 2 && len(cl.Call.Args) == 2 {
+			w1, _ = cl.Call.Args[0].(*ssa.Slice)
+			w2, _ = cl.Call.Args[1].(*ssa.Slice)
+			if w1 != nil && w2 != nil {
+				chooser, chooserCall = g, cl
+				r.analysed(fname(g))
+			}
+		}
+	}
 	if w1 == nil || w2 == nil {
 		r.undecided("CS-WIN", where, "yielded value", c.pos(ycall.Pos()), "yielded value is not a choice between two windows")
 		return
@@ -228,7 +241,53 @@ func rulesCanonical(c *Ctx, r *Report) {
 		"the reverse-strand candidate is rc[len(rc)-i-k : len(rc)-i], the mirror image of seq[i : i+k]",
 		fmt.Sprintf("rc window is [%s : %s], want [%s : %s]: it is not the reverse complement of the same k-mer", lowAbs, highAbs, wantLow, wantHigh))
 	// CS-MIN: selection by bytes.Compare on exactly the two windows
-	cond, tv, fv := iteOf(phi)
+	var cond, tv, fv ssa.Value
+	selPos := ycall.Pos()
+	toCaller := func(v ssa.Value) ssa.Value { return v }
+	if chooser == nil {
+		cond, tv, fv = iteOf(phi)
+		selPos = phi.Pos()
+	} else {
+		// in the helper: `if cond { return p } ; return q` or a returned phi; parameters stand for the two windows
+		toCaller = func(v ssa.Value) ssa.Value {
+			for i, p := range chooser.Params {
+				if v == ssa.Value(p) {
+					return chooserCall.Call.Args[i]
+				}
+			}
+			return v
+		}
+		selPos = chooser.Pos()
+		var rets []*ssa.Return
+		instrs(chooser, func(in ssa.Instruction) {
+			if rt, ok := in.(*ssa.Return); ok {
+				rets = append(rets, rt)
+			}
+		})
+		if len(rets) == 1 {
+			if ph, ok := retOperands(rets[0])[0].(*ssa.Phi); ok {
+				cond, tv, fv = iteOf(ph)
+			}
+		} else if len(rets) == 2 {
+			if iff, ok := lastInstr(chooser.Blocks[0]).(*ssa.If); ok {
+				var onT, onF ssa.Value
+				for _, rt := range rets {
+					switch {
+					case chooser.Blocks[0].Succs[0] == rt.Block() || chooser.Blocks[0].Succs[0].Dominates(rt.Block()) && len(chooser.Blocks[0].Succs[0].Preds) == 1:
+						onT = retOperands(rt)[0]
+					default:
+						onF = retOperands(rt)[0]
+					}
+				}
+				if onT != nil && onF != nil {
+					cond, tv, fv = iff.Cond, onT, onF
+				}
+			}
+		}
+		if cond != nil {
+			tv, fv = toCaller(tv), toCaller(fv)
+		}
+	}
 	var cmp *ssa.Call
 	var cmpOp token.Token
 	var cmpK int64
@@ -254,9 +313,9 @@ func rulesCanonical(c *Ctx, r *Report) {
 		}
 	}
 	if cmp == nil {
-		r.undecided("CS-MIN", where, "selection", c.pos(phi.Pos()), "the choice between the candidates is not a comparison of bytes.Compare with a constant")
+		r.undecided("CS-MIN", where, "selection", c.pos(selPos), "the choice between the candidates is not a comparison of bytes.Compare with a constant")
 	} else {
-		x, y := cmp.Call.Args[0], cmp.Call.Args[1]
+		x, y := toCaller(cmp.Call.Args[0]), toCaller(cmp.Call.Args[1])
 		if !r.check((x == ssa.Value(ws) && y == ssa.Value(wr)) || (x == ssa.Value(wr) && y == ssa.Value(ws)), "CS-MIN", where, "compared values", c.pos(cmp.Pos()),
 			"the comparison is between exactly the two candidate windows", "the comparison is between "+s.expr(x).String()+" and "+s.expr(y).String()+", not the two whole candidate windows") {
 			return
@@ -273,7 +332,7 @@ func rulesCanonical(c *Ctx, r *Report) {
 				bad += fmt.Sprintf(" Compare=%d picks the larger;", out)
 			}
 		}
-		r.check(bad == "", "CS-MIN", where, "selection", c.pos(phi.Pos()), "for each outcome of bytes.Compare (-1, 0, 1) the lexicographically smaller window is yielded", "not the minimum:"+bad)
+		r.check(bad == "", "CS-MIN", where, "selection", c.pos(selPos), "for each outcome of bytes.Compare (-1, 0, 1) the lexicographically smaller window is yielded", "not the minimum:"+bad)
 	}
 	// CS-COUNT: trip count len(seq)-k+1, loop entered unconditionally, one yield per iteration
 	seqAtom := "^P0"
